@@ -59,6 +59,22 @@ def read_seps():
         out.append((dec(a), dec(b)))
     return out
 
+
+# ---------------------------------------------------------------- capped reporting
+_SEEN = {}
+def report(ctx, what, case, no_input=False, cap=3):
+    """at most [cap] replay files per kind of violation; the rest is counted in the notes"""
+    key = re.sub(r'/[^ ]+', '<path>', what)[:80]
+    n = _SEEN.get(key, 0) + 1; _SEEN[key] = n
+    if n <= cap:
+        ctx.violation(what, case, no_input=no_input)
+    elif n == cap + 1:
+        ctx.notes.append('further violations of kind "%s" are counted but not written as replays' % key)
+
+def flush_report_counts(ctx):
+    for k, n in _SEEN.items():
+        if n > 3: ctx.notes.append('%d violations of kind "%s"' % (n, k))
+
 # ---------------------------------------------------------------- generators
 
 ID_CHARS = 'abcxyz019:_-./=> é中'
@@ -148,12 +164,12 @@ def roundtrip_oracle(ctx, parts, res, sep, stream, extra=None):
     if extra: case.update(extra)
     if not (cl & {'K17a', 'K17h', 'dup'}):
         if got != stored:
-            ctx.violation('aggregated file does not split back into the module texts it was built from', case)
+            report(ctx, 'aggregated file does not split back into the module texts it was built from', case)
         elif got != exact:      # only the final newline was added
             if ctx.is_known('K17b'):
                 ctx.known_finding('K17b', 'a module text without a final newline comes back from the aggregated file with one (benign normalisation)')
             else:
-                ctx.violation('module text comes back with an added final newline', case)
+                report(ctx, 'module text comes back with an added final newline', case)
         return got == stored
     if got != exact and got != stored:
         for k in ('K17a', 'K17h'):
@@ -161,7 +177,7 @@ def roundtrip_oracle(ctx, parts, res, sep, stream, extra=None):
                 what = {'K17a': 'a module text containing a marker-like line is truncated at it or makes the aggregated file unparseable',
                         'K17h': 'a module id with surrounding white space / a newline is not read back from its start marker'}[k]
                 if ctx.is_known(k): ctx.known_finding(k, what)
-                else: ctx.violation(what, case)
+                else: report(ctx, what, case)
     return False
 
 def run_pure_streams(ctx, quick, seps):
@@ -177,11 +193,11 @@ def run_pure_streams(ctx, quick, seps):
             out = avh.call({'op': 'markers_format', 'id': mid, 'content': t})['out']
             c = {'stream': 'format', 'id': mid, 'content': t, 'impl': out}
             if out != raw_section(mid, ensure_nl(t)):
-                ctx.violation('format_module_section does not produce start marker + text + final newline + end marker', c)
+                report(ctx, 'format_module_section does not produce start marker + text + final newline + end marker', c)
             cases.append((cq.cpair(cq.cstr(mid), cq.cstr(t), cq.cstr(out)), c))
             ctx.count('format', key=(mid, t), nontrivial=t != '', tags=['nl' if t.endswith('\n') else 'no-nl', 'id_ok' if id_ok(mid) else 'id_bad'])
         for c in ctx.corr('format', HEADER, 'check_format', 'str * str * str', cases):
-            ctx.violation('model format_section and markers::format_module_section disagree', c, no_input=True)
+            report(ctx, 'model format_section and markers::format_module_section disagree', c, no_input=True)
         # ---- roundtrip (+ attribution)
         cases = []
         done = 0
@@ -210,12 +226,12 @@ def run_pure_streams(ctx, quick, seps):
                 a, b = res.get('ok') or {}, res2.get('ok')
                 c2 = {'stream': 'attribution', 'parts': parts, 'edited_index': k, 'new_text': t2, 'sep': sep, 'before': res, 'after': res2}
                 if b is None or set(a) != set(b) or any(a[x] != b[x] for x in a if x != parts[k][0]) or b.get(parts[k][0]) != ensure_nl(t2):
-                    ctx.violation('an edit inside one module section is not attributed to exactly that module', c2)
+                    report(ctx, 'an edit inside one module section is not attributed to exactly that module', c2)
                 ctx.count('attribution', key=(tuple(parts), k, t2), nontrivial=ensure_nl(t2) != ensure_nl(parts[k][1]), tags=['edited'])
                 cases.append((cq.cpair(cq.cN(ti), c_parts(parts2), obs_parse_term(res2)), c2))
                 done += 1
         for c in ctx.corr('roundtrip', HEADER, 'check_roundtrip', 'N * list (str * str) * obs_parse', cases):
-            ctx.violation('model parse_sections∘aggregate and markers::parse∘format disagree', c, no_input=True)
+            report(ctx, 'model parse_sections∘aggregate and markers::parse∘format disagree', c, no_input=True)
         # ---- parse of arbitrary (hand-edited / damaged) files
         cases = []
         for i in range(n_parse):
@@ -235,7 +251,7 @@ def run_pure_streams(ctx, quick, seps):
             ctx.count('parse', key=text, nontrivial=PREFIX in text, tags=['impl:' + kind])
             cases.append((cq.cpair(cq.cstr(text), obs_parse_term(res)), {'stream': 'parse', 'text': text, 'impl': res}))
         for c in ctx.corr('parse', HEADER, 'check_parse', 'str * obs_parse', cases):
-            ctx.violation('model parse_sections and markers::parse_module_sections disagree', c, no_input=True)
+            report(ctx, 'model parse_sections and markers::parse_module_sections disagree', c, no_input=True)
 
 def replay_witnesses_pure(ctx, seps):
     """the vm_compute witnesses of C17_roundtrip_refuted, on the implementation"""
@@ -495,7 +511,7 @@ def judge_scenario(ctx, avh, sc, ob, seps, cases_dep, cases_dec):
         for k in (cls or []):
             if ctx.is_known(k):
                 ctx.known_finding(k, KNOWN_WHAT[k]); return
-        ctx.violation(what, c)
+        report(ctx, what, c)
     target = TARGET_CFG[sc['target']][0]
     sep = dict(seps)[target]
     mods = sc['mods']; ids = [i for i, _ in mods]
@@ -639,6 +655,8 @@ def judge_scenario(ctx, avh, sc, ob, seps, cases_dep, cases_dec):
         viol('the proposal branch no longer renders (plan fails after checkout): %s' % (plan.get('errors'),), cls=sorted(classes & {'K17e', 'K17a'}))
         return
     changed = {q for (_, q) in plan['changes']}
+    ctx.count('fixpoint', key=(sc['idx'], tuple(sorted(classes))), nontrivial=not classes,
+              tags=['classes:' + (','.join(sorted(classes)) or 'none'), 'plan-clean:%s' % (not any(p in changed for p in captured_paths))])
     for p in captured_paths:
         if p in changed:
             viol('after checking out the proposal branch, plan still reports drift for the captured file %s' % p.replace(root, ''),
@@ -671,9 +689,9 @@ def run_e2e(ctx, quick, seps):
                 ctx.sample({'stream': 'propose', 'scenario': sc, 'created': ob.get('created'), 'plan': ob.get('plan'),
                             'propose_data': (ob.get('propose', {}).get('doc') or {}).get('data')})
     for c in ctx.corr('deployed', HEADER, 'check_deployed', 'str * list (str * str) * str', cases_dep):
-        ctx.violation('model render_instructions and the deployed aggregated file disagree', c, no_input=True)
+        report(ctx, 'model render_instructions and the deployed aggregated file disagree', c, no_input=True)
     for c in ctx.corr('decide', HEADER, 'check_decide', 'str * list str * option str * (N * list (str * str))', cases_dec):
-        ctx.violation('model decide/capture and evolve propose disagree on what is captured or skipped', c, no_input=True)
+        report(ctx, 'model decide/capture and evolve propose disagree on what is captured or skipped', c, no_input=True)
 
 # ---------------------------------------------------------------- single-module kinds (prompts, commands, skills, cursor)
 
@@ -763,8 +781,8 @@ def run_kind(args):
     finally:
         sb.close()
 
-def run_kinds(ctx, quick):
-    kinds = ['vscode_prompt_md', 'vscode_prompt_pm', 'vscode_prompt_txt', 'codex_prompt', 'claude_command', 'codex_skill', 'cursor_rule']
+def run_kinds(ctx, quick, only=None):
+    kinds = [only] if only else ['vscode_prompt_md', 'vscode_prompt_pm', 'vscode_prompt_txt', 'codex_prompt', 'claude_command', 'codex_skill', 'cursor_rule']
     reps = 3 if quick else 12
     jobs = [(k, ctx.rng.randrange(1 << 30)) for k in kinds for _ in range(reps)]
     with concurrent.futures.ThreadPoolExecutor(max_workers=max(2, NCPU // 2)) as ex:
@@ -780,7 +798,7 @@ def run_kinds(ctx, quick):
             cls = {'vscode_prompt_md': 'K17d', 'cursor_rule': 'K17c'}.get(kind)
             def viol(what, k=None):
                 if k and ctx.is_known(k): ctx.known_finding(k, KNOWN_WHAT[k])
-                else: ctx.violation(what, case)
+                else: report(ctx, what, case)
             ok_fix = False
             if not (doc and doc.get('ok') and doc['data'].get('created')):
                 viol('single-module drift was not proposed')
@@ -812,11 +830,11 @@ def run_kinds(ctx, quick):
                 cur_cases.append((cq.cpair(cq.cstr(desc), cq.cstr(info['body']), cq.cstr(ob['deployed'])), {'stream': 'cursor', 'module': info['module_id'], 'file': ob['deployed']}))
             ctx.count('kinds', key=(kind, info.get('src_name'), info.get('edit_rel'), info.get('module_id'), info.get('body'), ok_fix), tags=['kind:' + kind, 'fixpoint:%s' % ok_fix])
     for c in ctx.corr('relpath', HEADER, 'check_relpath', 'N * str * str * option str * option str', rel_cases):
-        ctx.violation('model module_rel_for_output and the overlay path written by evolve propose disagree', c, no_input=True)
+        report(ctx, 'model module_rel_for_output and the overlay path written by evolve propose disagree', c, no_input=True)
     for c in ctx.corr('vscode_name', HEADER, 'check_vscode_name', 'str * str', name_cases):
-        ctx.violation('model vscode_prompt_name and the deployed prompt file name disagree', c, no_input=True)
+        report(ctx, 'model vscode_prompt_name and the deployed prompt file name disagree', c, no_input=True)
     for c in ctx.corr('cursor', HEADER, 'check_cursor', 'str * str * str', cur_cases):
-        ctx.violation('model cursor_rule and the deployed rule file disagree', c, no_input=True)
+        report(ctx, 'model cursor_rule and the deployed rule file disagree', c, no_input=True)
 
 # ---------------------------------------------------------------- directed witnesses of the known classes (every run)
 
@@ -846,20 +864,48 @@ def run_witnesses(ctx, seps):
 # ---------------------------------------------------------------- entry point
 
 def replay(ctx, seps):
+    """re-execute one recorded case on the current implementation (oracle + model comparison)"""
     case = json.load(open(ctx.replay))
     st = case.get('stream')
-    if st in ('propose',) and 'scenario' in case:
+    if 'scenario' in case:
         sc = case['scenario']; sc['mods'] = [tuple(m) for m in sc['mods']]
         ob = run_scenario(sc, seps)
+        dep, dec = [], []
         with Avh() as avh:
-            judge_scenario(ctx, avh, sc, ob, seps, [], [])
+            judge_scenario(ctx, avh, sc, ob, seps, dep, dec)
+        for c in ctx.corr('deployed', HEADER, 'check_deployed', 'str * list (str * str) * str', dep):
+            report(ctx, 'model render_instructions and the deployed aggregated file disagree', c, no_input=True)
+        for c in ctx.corr('decide', HEADER, 'check_decide', 'str * list str * option str * (N * list (str * str))', dec):
+            report(ctx, 'model decide/capture and evolve propose disagree on what is captured or skipped', c, no_input=True)
     elif st in ('roundtrip', 'witness', 'attribution') and 'parts' in case:
-        parts = [tuple(p) for p in case['parts']]; sep = case.get('sep') or seps[0][1]
+        parts = [tuple(p) for p in case['parts']]
+        if st == 'attribution': parts[case['edited_index']] = (parts[case['edited_index']][0], case['new_text'])
+        sep = case.get('sep') or dict(seps).get(case.get('target')) or seps[0][1]
+        ti = [x[1] for x in seps].index(sep) if sep in [x[1] for x in seps] else 0
         with Avh() as avh:
             text = sep.join(avh.call({'op': 'markers_format', 'id': i, 'content': t})['out'] for i, t in parts)
-            roundtrip_oracle(ctx, parts, avh.call({'op': 'markers_parse', 'text': text}), sep, 'roundtrip')
+            res = avh.call({'op': 'markers_parse', 'text': text})
+        roundtrip_oracle(ctx, parts, res, sep, 'roundtrip')
+        for c in ctx.corr('roundtrip', HEADER, 'check_roundtrip', 'N * list (str * str) * obs_parse',
+                          [(cq.cpair(cq.cN(ti), c_parts(parts), obs_parse_term(res)), {'stream': 'roundtrip', 'parts': parts, 'sep': sep, 'impl': res})]):
+            report(ctx, 'model parse_sections∘aggregate and markers::parse∘format disagree', c, no_input=True)
+    elif st == 'format' and 'id' in case:
+        with Avh() as avh:
+            out = avh.call({'op': 'markers_format', 'id': case['id'], 'content': case['content']})['out']
+        c = {'stream': 'format', 'id': case['id'], 'content': case['content'], 'impl': out}
+        if out != raw_section(case['id'], ensure_nl(case['content'])):
+            report(ctx, 'format_module_section does not produce start marker + text + final newline + end marker', c)
+        for c in ctx.corr('format', HEADER, 'check_format', 'str * str * str', [(cq.cpair(cq.cstr(case['id']), cq.cstr(case['content']), cq.cstr(out)), c)]):
+            report(ctx, 'model format_section and markers::format_module_section disagree', c, no_input=True)
+    elif st == 'parse' and 'text' in case:
+        with Avh() as avh:
+            res = avh.call({'op': 'markers_parse', 'text': case['text']})
+        for c in ctx.corr('parse', HEADER, 'check_parse', 'str * obs_parse', [(cq.cpair(cq.cstr(case['text']), obs_parse_term(res)), {'stream': 'parse', 'text': case['text'], 'impl': res})]):
+            report(ctx, 'model parse_sections and markers::parse_module_sections disagree', c, no_input=True)
+    elif st == 'kinds' and 'kind' in case:
+        run_kinds(ctx, True, only=case['kind'])
     else:
-        ctx.violation('recorded case cannot be re-executed directly (proof or correspondence obligation): ' + str(case.get('what')), case, no_input=True)
+        report(ctx, 'recorded case cannot be re-executed directly (proof or correspondence obligation): ' + str(case.get('what')), case, no_input=True)
 
 def run(ctx):
     quick = ctx.tier == 'quick'
@@ -884,3 +930,4 @@ def run(ctx):
     run_pure_streams(ctx, quick, seps)
     run_e2e(ctx, quick, seps)
     run_kinds(ctx, quick)
+    flush_report_counts(ctx)
